@@ -518,7 +518,11 @@ def r03_5(ctx):
     want = {'type': 'note_on', 'channel': 3, 'note': 5, 'velocity': 64, 'time': 0}
     cases = [('valid', dict(good), None), ('velocity 200', dict(good, velocity=200), ('ValueError',)), ('note -1', dict(good, note=-1), ('ValueError',)),
              ('channel 1.5', dict(good, channel=1.5), ('TypeError',)), ('attribute of another type', dict(good, pitch=0), ('ValueError', 'TypeError', 'AttributeError')),
-             ('unknown type', {'type': 'no_such_message'}, ('ValueError', 'LookupError', 'KeyError')), ('time as text', dict(good, time='x'), ('TypeError',))]
+             ('unknown type', {'type': 'no_such_message'}, ('ValueError', 'LookupError', 'KeyError')), ('time as text', dict(good, time='x'), ('TypeError',)),
+             # None is a value like any other (the constructor, copy and assignment refuse it): not a way of saying "leave it out"
+             ('note None', dict(good, note=None), ('TypeError',)), ('time None', dict(good, time=None), ('TypeError',)),
+             ('unknown attribute None', dict(good, zzz=None), ('ValueError', 'TypeError', 'AttributeError')),
+             ('sysex data None', {'type': 'sysex', 'data': None}, ('TypeError',))]
     for label, d, excs in cases:
         outs = ai.explore(lambda: ai.call_function(fd, [ClassRef(base), ADict(dict(d))], {}))
         ctx.call_sites += 1
